@@ -1,4 +1,4 @@
-package harness
+package hx
 
 import (
 	"math/big"
